@@ -92,7 +92,19 @@ def vpd_formats():
                           # IDENTIFY DEVICE data starts at byte 60 of the page (SAT-3 table "ATA Information VPD page");
                           # ACS: words 10-19 serial number, 23-26 firmware revision, 27-46 model number (raw bytes)
                           identify={"serial_number": t[1]["identify"][20:40], "firmware_rev": t[1]["identify"][46:54],
-                                    "model_number": t[1]["identify"][54:94]})), I()))
+                                    "model_number": t[1]["identify"][54:94],
+                                    # ACS IDENTIFY DEVICE data consists of little-endian words: word 0 (general
+                                    # configuration) bit 15 = not an ATA device, bit 2 = incomplete response;
+                                    # word 2 = specific configuration (37C8h, 738Ch, 8C73h, C837h)
+                                    "general_config": {"ata_device": t[1]["identify"][1] >> 7,
+                                                       "respose_incomplete": (t[1]["identify"][0] >> 2) & 1},
+                                    "specific_config": t[1]["identify"][4] | (t[1]["identify"][5] << 8)},
+                          # SAT-3 table "ATA device signature": the 20 bytes are the image of the register device
+                          # to host FIS: 0 transport id (34h), 2 status, 3 error, 4 LBA(7:0), 5 LBA(15:8),
+                          # 6 LBA(23:16), 7 device, 8..10 LBA(47:24), 12 count(7:0), 13 count(15:8)
+                          signature={"sector_count": t[1]["signature_fis"][12], "lba_low": t[1]["signature_fis"][4],
+                                     "lba_mid": t[1]["signature_fis"][5], "lba_high": t[1]["signature_fis"][6],
+                                     "device": t[1]["signature_fis"][7]})), I()))
     # device identification
     def desc():
         def mk(t):
@@ -368,6 +380,15 @@ def readcd_format():
             else:
                 if mcsb & 0x10:
                     e["sync"] = s["sync"]
+                if mcsb & 0x04:
+                    # sector header (ECMA-130 14.2): MSF address of the sector and the MODE byte
+                    h = s["header"]
+                    e["sector-header"] = {"minute": h[0], "second": h[1], "frame": h[2], "mode": h[3]}
+                if mcsb & 0x08 and est in (4, 5):
+                    # mode 2 sub-header: file number, channel number, sub-mode, coding information - recorded twice
+                    sh = s["subheader"]
+                    e["sector-subheader"] = [{"file-number": sh[o], "channel-number": sh[o + 1], "sub-mode": sh[o + 2],
+                                              "data": sh[o:o + 4]} for o in (0, 4)]
                 if mcsb & 0x02:
                     e["data"] = s["data"]
                 if mcsb & 0x01 and est in (2, 4, 5):
@@ -378,7 +399,11 @@ def readcd_format():
             if v["c2ei"] == 1:
                 e["c2ei-data"] = s["c2"][:294]
             if v["scsb"] == 2:
-                e["subchannel"] = {"data": s["sub"][:16]}
+                # MMC-6 table "Formatted Q sub-channel response data"
+                q = s["sub"][:16]
+                e["subchannel"] = {"data": q, "c": q[0] >> 4, "adr": q[0] & 0x0F, "track-number": q[1], "index-number": q[2],
+                                   "min": q[3], "sec": q[4], "frame": q[5], "zero": q[6], "amin": q[7], "asec": q[8],
+                                   "aframe": q[9], "crc": (q[10] << 8) | q[11], "p": q[15] >> 7}
             elif v["scsb"] == 4:
                 e["subchannel"] = {"data": s["sub"][:96]}
             out[v["lba"] + i] = e
